@@ -417,6 +417,16 @@ class ExprMixin:
                     return [(st, ho.fields[kk])]
                 return [(st, Exc("KeyError", self.line(node)))]
             raise Unsupported(f"subscript on instance of {ho.cls}")
+        if isinstance(c, VAtom) and isinstance(c.kind, Abstract):
+            kk = ops.deref(st, k)
+            ck = concrete_str(kk.t) if isinstance(kk, VStr) else None
+            if ck is not None and ("item:" + ck) in c.kind.attrs:
+                return [(st, c.kind.attr(c, "item:" + ck))]
+            if "item:*" in c.kind.attrs:
+                kind, keykind = c.kind.attrs["item:*"]
+                f = z3.Function(f"{c.kind.name}.item", c.kind.sort(), keykind.sort(), kind.sort())
+                return [(st, kind.wrap(f(c.t, ops.coerce(st, kk, keykind).t)))]
+            raise Unsupported(f"subscript {ck!r} on abstract {c.kind.name} not declared by the contract")
         if isinstance(c, VFunc) and c.what == "classattr":
             return self.classattr_item(st, c, k, node)
         cv = ops.deref(st, c)
